@@ -627,7 +627,9 @@ impl Engine for E5 {
         if queuing {
             sched = SchedSpec::generate(&mut sch, &[35, 20, 25, 10, 10]);
         }
-        let queue_cap = if queuing && cfg.chance(1, 2) { Some(*cfg.pick(&[1usize, 2, 4])) } else { None };
+        // (capacity 0: a rendezvous queue; whatever such a front does when its worker is busy, what it
+        // acknowledges must still reach the buffered sink whole, once and in each thread's order)
+        let queue_cap = if queuing && cfg.chance(1, 2) { Some(*cfg.pick(&[1usize, 2, 4, 0])) } else { None };
         let queue_handler = queuing && cfg.chance(1, 2);
         NetCase { sched, sink, cap, addr_form: cfg.below(4) as u8, nonblocking, queuing, queue_cap, queue_handler, via_client, max_datagram, tasks, plan }
     }
